@@ -929,7 +929,7 @@ def _enum_sample(draw):
 # ----------------------------------------------------------------------------- registry
 
 SUBS = [
-    Sub('ulist_ops', lambda tier: _ulist_case(), run_ulist_ops, quick=8000, thorough=30000,
+    Sub('ulist_ops', lambda tier: _ulist_case(), run_ulist_ops, quick=6000, thorough=30000,
         rule='a pool of 1-7 hashable elements (ints, strings, None, tuples, 1/1.0/True aliases, NaN objects); ulist built from a list/tuple/ulist of <= 9 '
              'pool elements, then a chain of 1-3 operations + | - & with a single pool element, a list (<= 7, repeats allowed) or a ulist; after every step: '
              'result is a ulist, duplicate-free, equal to the ordered-set model (first-occurrence order), both operands untouched. '
@@ -943,7 +943,7 @@ SUBS = [
         floor=0.1, class_floors={'raw_len>=64': 0.5, 'raw_len>=128': 0.25, 'ctor_raw_len>=64': 0.3, 'ctor_raw_len>=128': 0.12, 'union_raw_len>=64': 0.08,
                                  'union_raw_len>=128': 0.04, 'operand_len>=64': 0.2, 'operand_len>=128': 0.08, 'first_and_last_occurrence_order_differ': 0.5,
                                  'op&': 0.15, 'op-': 0.15, 'op+': 0.15, 'op|': 0.15}),
-    Sub('mapping_ops', _mapping_strategy, run_mapping_ops, quick=10000, thorough=30000,
+    Sub('mapping_ops', _mapping_strategy, run_mapping_ops, quick=7000, thorough=30000,
         rule='mapping of class dictattr / Dict / local subclass of each / dictable with 0-5 string keys and flat values; one operation: d - key, d - [keys], '
              'd & key, d & [keys], d[[keys]], d[k1, k2], d + other, relabel (keyword, dict, prefix, suffix, callable, full list, *names), attribute get/set/del; '
              'selections present / absent / mixed; oracle: plain dict model, type(result) is type(d), result is not d, exact keys (ordered for - and &), '
@@ -957,13 +957,13 @@ SUBS = [
              'non-trivial as in mapping_ops',
         floor=0.3, class_floors={'nkeys>=30': 0.6, 'nkeys>=64': 0.15, 'sel_len>=30': 0.3, 'sel_len>=64': 0.1, 'sel=mixed': 0.15, 'cls=dictable': 0.1,
                                  'op=subl': 0.1, 'op=andl': 0.1, 'op=getl': 0.1}),
-    Sub('call_graph', lambda tier: _call_case(tier), run_call, quick=4000, thorough=3000,
+    Sub('call_graph', lambda tier: _call_case(tier), run_call, quick=3000, thorough=3000,
         rule='Dict / subclass with 0-4 base keys; keywords = 1-6 callable (derived) keys whose parameters name base keys, plain keywords or other derived keys '
              '(random dag over a hidden rank order; 1 in 4 gets 1-2 back edges, no self-loops; 1 in 4 derived names also has an old value in d) plus 0-2 plain keywords; '
              'called in the drawn order, 2 more drawn orders and the reverse (thorough: about 1 case in 5 is called in ALL orders of its <= 6 keywords, <= 720); oracle: recursive evaluator on the '
              'parameter names, ValueError iff a cycle exists, result class, d unchanged. non-trivial = cyclic, or depth >= 2 with an order that is not topological',
         floor=0.3, class_floors={'cyclic': 0.08, 'deep_and_out_of_order': 0.3, 'derived=6': 0.1, 'derived_key_shadows_old_value': 0.2}),
-    EnumSub('call_perms', enum_call_perms, run_call, strategy=lambda tier: _enum_sample(), quick=4000, chunks=64,
+    EnumSub('call_perms', enum_call_perms, run_call, strategy=lambda tier: _enum_sample(), quick=3000, chunks=64,
             rule='every digraph without self-loops on 1-4 derived keys (1 + 4 + 64 + 4 096) and a fixed family of 22 graphs each on 5 and 6 keys '
                  '(chains in both label orders, stars, complete dag, tree, diamonds, 2-/3-/n-cycles with tails), every key also reading base keys; each graph in EVERY '
                  'keyword order (n!) with and without old values under the derived names; same oracle as call_graph. quick tier samples this domain',
